@@ -28,6 +28,8 @@ LANG_CFG = {
     "typescript": {},
 }
 
+INTERSECTION_LANGS = ["java", "jsonschema", "openapi", "typescript"]
+
 PKG_NAMES = ["alpha", "beta", "gamma", "delta", "epsilon"]
 OBJ_NAMES = ["Config", "Options", "Target", "Panel", "Query", "Legend", "Axis", "Threshold"]
 FIELD_NAMES = ["name", "title", "mode", "size", "enabled", "tags", "labels", "unit", "limit", "color"]
@@ -84,6 +86,16 @@ def gen_package(rng, pkg, shapes):
                 {"name": "radius" if i == 0 else "side", "type": {"t": "number"}, "required": False}]}})
         root["def"]["fields"].append({"name": "shape", "type": {"t": "oneof", "refs": ["ShapeCircle", "ShapeSquare"]},
                                       "required": False})
+    if shapes.get("intersection"):
+        # allOf[$ref, inline struct]: the inline branch holds what language passes rewrite in place
+        # (optional field, T | null, scalar disjunction)
+        defs.append({"name": "InterBase", "def": {"kind": "struct", "fields": [
+            {"name": "id", "type": {"t": "string"}, "required": True}]}})
+        defs.append({"name": "InterExtended", "def": {"kind": "struct", "base": "InterBase", "fields": [
+            {"name": "note", "type": {"t": "string"}, "required": False},
+            {"name": "value", "type": {"t": "scalars", "types": ["string", "boolean"]}, "required": True},
+            {"name": "maybe", "type": {"t": "scalars", "types": ["integer", "null"]}, "required": False}]}})
+        root["def"]["fields"].append({"name": "extended", "type": {"t": "ref", "to": "InterExtended"}, "required": False})
     if shapes.get("struct_default"):
         root["def"]["fields"].append({"name": "weights", "type": {"t": "map", "of": {"t": "integer"}}, "required": False})
         defs.append({"name": "Point", "def": {"kind": "struct", "fields": [
@@ -110,6 +122,8 @@ def link_unreferenced(defs):
     root = defs[0]
     seen = set()
     for d in defs:
+        if d["def"].get("base"):
+            seen.add(d["def"]["base"])
         for f in d["def"]["fields"]:
             refs_in(f["type"], seen)
     for d in defs[1:]:
@@ -123,7 +137,8 @@ def gen_spec(rng, langs=None, npkgs=None, shapes=None, flags=None):
     pkgs = rng.sample(PKG_NAMES, npkgs)
     inputs = []
     for i, p in enumerate(pkgs):
-        sh = {"two_discriminators": shapes.get("two_discriminators") and i == 0,
+        sh = {"intersection": shapes.get("intersection") and i == (1 if npkgs > 2 else 0),
+              "two_discriminators": shapes.get("two_discriminators") and i == 0,
               "struct_default": shapes.get("struct_default") and i <= 1}
         inputs.append({"pkg": p, "format": "openapi" if (shapes.get("openapi") and i == npkgs - 1) else "jsonschema",
                        "file": "schemas/%s_%d.json" % (p, i), "defs": gen_package(rng, p, sh), "transforms": []})
@@ -136,9 +151,33 @@ def gen_spec(rng, langs=None, npkgs=None, shapes=None, flags=None):
     }
     if flags:
         spec.update(flags)
+    if shapes.get("intersection"):
+        # allOf with an inline struct branch is only generated successfully by these (go emits code
+        # goimports rejects, php reports an unhandled kind, python panics)
+        keep = [l for l in spec["languages"] if l in INTERSECTION_LANGS]
+        spec["languages"] = keep if len(keep) >= 2 else list(INTERSECTION_LANGS)
     if shapes.get("nested_params"):
         # %outer% -> 'x%inner%' -> 'xgen': the result depends on which key is substituted first
         spec["parameters"] = {"pkgroot": "%outer%", "outer": "o%inner%", "inner": "gen"}
+    if shapes.get("mutual_params"):
+        # two parameters mentioning each other, and two placeholders sharing a '%': a single pass in a
+        # fixed key order is deterministic; anything that expands "until nothing changes" while
+        # ranging over the map is not
+        spec["parameters"] = {"pkgroot": "%rootb%/x", "rootb": "%pkgroot%/y", "org": "acme", "project": "sdk"}
+        spec.setdefault("lang_cfg", {}).setdefault("python", {})["path_prefix"] = "verif_%org%project%"
+        spec["builders"] = True
+    if shapes.get("veneer_levels") and spec.get("builders"):
+        # veneers for `language: all` AND for one specific language, whose rules do not commute: the
+        # common file renames an option, the language file omits the option under its NEW name
+        p0 = inputs[0]
+        root = p0["defs"][0]
+        fld = root["def"]["fields"][0]["name"]
+        specific = next((l for l in spec["languages"] if l in ("go", "python", "typescript", "java", "php")), None)
+        if specific:
+            spec.setdefault("veneers", []).append({"language": "all", "package": p0["pkg"], "options": [
+                {"rename": {"by_name": "%s.%s" % (root["name"], fld), "as": "renamedByCommonVeneer"}}]})
+            spec["veneers"].append({"language": specific, "package": p0["pkg"], "options": [
+                {"omit": {"by_name": "%s.renamedByCommonVeneer" % root["name"]}}]})
     if shapes.get("set_default_twice"):
         p0 = inputs[0]
         root = p0["defs"][0]
@@ -159,8 +198,8 @@ def gen_spec(rng, langs=None, npkgs=None, shapes=None, flags=None):
         # a hint_object transformation with two hints
         spec["templates_data"] = {"Version": "v-%pkgroot%", "Owner": "team %pkgroot%"}
         spec["extra_parameters"] = {"build": "1", "channel": "dev"}
-        spec["lang_cfg"] = {"typescript": {"packages_import_map": {inputs[0]["pkg"]: "@verif/" + inputs[0]["pkg"],
-                                                                  inputs[1]["pkg"]: "@verif/" + inputs[1]["pkg"]}}}
+        spec.setdefault("lang_cfg", {}).setdefault("typescript", {})["packages_import_map"] = {
+            inputs[0]["pkg"]: "@verif/" + inputs[0]["pkg"], inputs[1]["pkg"]: "@verif/" + inputs[1]["pkg"]}
         spec["common_transforms"].append({"hint_object": {"object": "%s.%s" % (inputs[0]["pkg"], inputs[0]["defs"][0]["name"]),
                                                           "hints": {"verif_a": "1", "verif_b": "2"}}})
     if shapes.get("struct_default"):
@@ -236,6 +275,8 @@ def js_type(t, refprefix):
         out = {"type": "string", "enum": list(t["values"])}
     elif k == "any":
         out = {}
+    elif k == "scalars":
+        out = {"type": list(t["types"])}
     elif k == "oneof":
         out = {"oneOf": [{"$ref": refprefix + r} for r in t["refs"]]}
     else:
@@ -246,6 +287,10 @@ def js_type(t, refprefix):
 
 
 def js_def(d, refprefix):
+    if d.get("base"):
+        # an intersection: a reference and an INLINE struct branch
+        inline = js_def({"fields": d["fields"]}, refprefix)
+        return {"allOf": [{"$ref": refprefix + d["base"]}, inline]}
     props = {}
     req = []
     for f in d["fields"]:
@@ -317,7 +362,7 @@ def render(spec):
 
 
 SHAPE_KEYS = ["two_discriminators", "struct_default", "nested_params", "set_default_twice", "colliding_names", "openapi",
-              "factories", "compose", "config_maps", "rename_root"]
+              "factories", "compose", "config_maps", "rename_root", "intersection", "mutual_params", "veneer_levels"]
 
 
 def gen_case(rng, langs=None, shapes=None, flags=None, npkgs=None):
